@@ -83,7 +83,6 @@ def kindOf (obs : String) : String :=
   else obs
 
 def charPadObs : String := "abort assert:" ++ sanitize charPaddingMsg
-def floatBufObs : String := "abort assert:" ++ sanitize floatBufferMsg
 
 /-- bytes of an observed event list `a<hex>,c<cc>x<n>,…` -/
 def obsEventBytes (s : String) : List Nat :=
@@ -135,11 +134,6 @@ def handle (c : Case) : Verdict :=
   let isC11 := c.get "p" == "C11"
   -- C10 judges the kind of outcome (which exception, which assertion); C11 judges the bytes as well
   let specOk := if isC11 then obsS == specS else kindOf obsS == kindOf specS && (kindOf obsS != "assert" || obsS == specS)
-  -- the 64-byte float buffer (defect 13) belongs to C13: the model predicts it, either behaviour is accepted here
-  let floatScope := ms == floatBufObs
-  -- std::abs of the most negative value (defect 12) belongs to C12
-  let absScope := obs.startsWith "abort ubsan:negation"
-  let scope := floatScope || absScope
   let nontrivial := match fmt with
     | some f => f.any (fun b => b == 123 || b == 125)
     | none => true
@@ -147,12 +141,11 @@ def handle (c : Case) : Verdict :=
     | some (.sint w _) => s!"i{w}" | some (.uint w _) => s!"u{w}" | some (.char _) => "char" | some (.wchar _) => "wchar"
     | some (.char8 _) => "c8" | some (.char16 _) => "c16" | some (.char32 _) => "c32" | some (.bool _) => "bool"
     | some (.str _) => "str" | some .nullStr => "null" | some (.float _) => "float" | none => "none"
-  { corr := scope || ms == obs,
-    spec := scope || specOk,
+  { corr := ms == obs,
+    spec := specOk,
     model := ms,
-    why := if scope || specOk then "" else s!"outcome differs from the specified rendering ({specS})",
-    branch := if floatScope then "out-of-scope.float-buffer(C13)" else if absScope then "out-of-scope.abs-min(C12)"
-              else if isC11 then s!"C11.{route}.{kindOf obs}.{argKind}.args={args.length}"
+    why := if specOk then "" else s!"outcome differs from the specified rendering ({specS})",
+    branch := if isC11 then s!"C11.{route}.{kindOf obs}.{argKind}.args={args.length}"
               else s!"{route}.{kindOf obs}.args={args.length}",
     nontrivial }
 
